@@ -62,6 +62,8 @@ def cases(tier):
             continue
         for chg in (None, "required_pressure", "minimum_pressure", "pressure_exponent"):
             out.append({"seam": "dynamic", "pmin": pmin, "preq": preq, "exp": e, "mode": mode, "change": chg})
+        # requested demand exactly zero in the first pattern period (and again later), non-zero in between
+        out.append({"seam": "dynamic", "pmin": pmin, "preq": preq, "exp": e, "mode": mode, "change": None, "dmul": [0.0, 2.0, 0.5, 0.0, 1.5]})
     return out
 
 
@@ -184,7 +186,7 @@ def dynamic_seam(c):
     o, j = params(c["mode"], pmin, preq, e)
     w = preq - pmin
     heads = [2.0 + pmin - 1.0, 2.0 + pmin + 0.3 * w, 2.0 + pmin + 0.7 * w, 2.0 + preq + 5.0, 2.0 + pmin + 0.5 * w, 2.0 + pmin + 0.85 * w, 2.0 + pmin + 0.15 * w]
-    dmul = [1.0, 2.0, 0.5, 1.5]
+    dmul = c.get("dmul", [1.0, 2.0, 0.5, 1.5])
     s = spec([R("R", 1.0, head_pat="HP"), J("J", 2.0, [[0.01, "DP", None]], **j)], [P("p", "R", "J", L=100.0, D=0.3)],
              OPTS(dur=6 * 3600, dm="PDD", **o), patterns={"HP": heads, "DP": dmul})
     wn = build(s)
@@ -211,7 +213,7 @@ def dynamic_seam(c):
         elif not (-1e-9 <= d <= D + 1e-9):
             viol.append({"key": "dynamic-curve", "what": "t=%d: reported demand %.9g outside [0, D=%.4g] at pressure %.9g" % (t, d, D, p)})
             break
-    return {"viol": viol, "nontrivial": len(regimes) == 3, "outcome": "dynamic:%s" % (c["change"] or "static"), "counts": {"system_runs": 1, "dynamic_steps": len(r.times)}}
+    return {"viol": viol, "nontrivial": len(regimes) == 3, "outcome": "dynamic:%s" % (c["change"] or ("zero-demand-periods" if c.get("dmul") else "static")), "counts": {"system_runs": 1, "dynamic_steps": len(r.times)}}
 
 
 def run_case(c):
